@@ -37,7 +37,7 @@ struct alignas(16) Blob16 { char c[16]; };
 
 struct cfg_t { std::size_t nc, na, nb; std::vector<std::pair<std::size_t, std::size_t>> raw; std::string* log; long retry_n = -1, retry_k = -1; };
 static cfg_t* g_cfg = nullptr;
-static Elem* g_src_elems = nullptr;   // source range for range/ilist forms (constructed outside the counted window)
+static Elem* g_src_elems = nullptr; static std::string g_retry_form;   // source range for range/ilist forms (constructed outside the counted window)
 
 struct f_size {}; struct f_value {}; struct f_ilist {}; struct f_range {};
 
@@ -97,6 +97,22 @@ template <class F, class J> static void body(J& self)
         long saved_seq = Elem::seq, saved_at = Elem::throw_at;
         Elem::seq = 0; Elem::throw_at = g_cfg->retry_k;
         const char* r1 = "ok";
+        if (g_retry_form == "copy" || g_retry_form == "move")
+        {   // the failing array is a copy of / is moved from another array of the same object (built first, without a failure)
+            Elem::throw_at = -1;
+            joint_array<Elem> srca(std::size_t(n), self);
+            before = st.capacity_left(); Elem::seq = 0; Elem::throw_at = g_cfg->retry_k;
+            try { if (g_retry_form == "copy") { joint_array<Elem> tmp(srca, self); } else { joint_array<Elem> tmp(std::move(srca), self); } }
+            catch (boom&) { r1 = "boom"; } catch (out_of_fixed_memory&) { r1 = "oofm"; }
+            std::size_t after = st.capacity_left();
+            Elem::throw_at = -1;
+            const char* r2 = "ok";
+            try { joint_array<Elem> again(std::size_t(n), self); } catch (boom&) { r2 = "boom"; } catch (out_of_fixed_memory&) { r2 = "oofm"; }
+            Elem::seq = saved_seq; Elem::throw_at = saved_at;
+            std::snprintf(buf, sizeof buf, " retry=%s before=%zu after=%zu second=%s", r1, before, after, r2);
+            *g_cfg->log += buf;
+            return;
+        }
         try
         {
             if (std::is_same<F, f_size>::value) { joint_array<Elem> tmp(std::size_t(n), self); }
@@ -226,7 +242,8 @@ int main()
         std::string log; cfg.log = &log; g_cfg = &cfg;
         up().bump = (up().bump + 4095) & ~std::size_t(4095);
         up().skew = (++caseno % 2) ? 8 : 0;
-        if (form == "size") run_case<f_size>(cap, throw_at, post, log);
+        g_retry_form = (k == "r" && (form == "copy" || form == "move")) ? form : "";
+        if (form == "size" || !g_retry_form.empty()) run_case<f_size>(cap, throw_at, post, log);
         else if (form == "value") run_case<f_value>(cap, throw_at, post, log);
         else if (form == "range") run_case<f_range>(cap, throw_at, post, log);
         else run_case<f_ilist>(cap, throw_at, post, log);
